@@ -102,6 +102,15 @@ def run(c):
     c.cov["ladn_hang_class_alive"] = skip
     cp = os.path.join(c.scratch, "cases.json"); json.dump(cases, open(cp, "w"))
     ev1, r1 = run_parts(c, drv, "replay", [cp, "@OUT"], "replay", env)
+    # the generated cases once more with the library's logger at trace level and every input in a buffer of exactly its size
+    # (no spare capacity): what a helper does with UE-supplied contents does not depend on either; only the observations
+    # that differ from the first pass need a second judgement
+    ev1b, r1b = run_parts(c, drv, "replay", [cp, "@OUT"], "replayT", dict(env, VERIF_LOGTRACE="1", VERIF_VIEW="0"))
+    seen1 = set(ev1)
+    extra = [e for e in ev1b if e not in seen1]
+    c.cov["second_pass_trace_level_exact_capacity"] = dict(events=len(ev1b), differing_from_first_pass=len(extra))
+    ev1 = ev1 + extra
+    r1 += r1b
     ev2, r2 = run_parts(c, drv, "record", ["@OUT"], "record", env)
     ev3, r3 = run_parts(c, drv, "sweep", ["@OUT"], "sweep", env)
     # ---- reused values: stage A of the value-with-contents model; its exhaustive graph prints every ordered pair
@@ -241,6 +250,7 @@ def run(c):
         k = key_of(idx, t); seen[k] = seen.get(k, 0) + 1
         if seen[k] <= 2: todo.append((idx, t))
     confirmed = {}
+    needs_trace = set()
     # ... a panic inside a history: replay that history (up to the failing step) on a fresh value in a fresh process
     hpan = [(idx, t) for idx, t in todo if t[2] == "PANIC" and events[idx].startswith('{"op":"Get"')]
     if hpan:
@@ -263,23 +273,28 @@ def run(c):
             tt = again.get(endi); e2 = json.loads(evs[endi])
             confirmed[idx, tuple(t)] = bool(tt) and tt[2] == "PANIC" and tt[3] == t[3] and (e2["fn"], e2["kind"]) == sig_of(json.loads(events[idx]), t)
     pan = [(idx, t) for idx, t in todo if t[2] == "PANIC" and not events[idx].startswith('{"op":"Get"')]
-    if pan:
+    # confirmation in a fresh process: first under the default configuration, then - for what did not reproduce - with the
+    # library's logger at trace level and inputs in buffers of exactly their size (the second replay pass ran like that)
+    for k, xenv in enumerate(({}, {"VERIF_LOGTRACE": "1", "VERIF_VIEW": "0"})):
+        pan_k = [(idx, t) for idx, t in pan if not confirmed.get((idx, tuple(t)))]
+        if not pan_k: break
         cs = []
-        for idx, t in pan:
+        for idx, t in pan_k:
             e = json.loads(events[idx])
             cs.append({"h": e["h"], "text": e["text"], "in": input_of(e, t)})
-        p = os.path.join(c.scratch, "confirm.json"); json.dump(cs, open(p, "w"))
-        o = os.path.join(c.scratch, "confirm.ndjson")
-        c.run_driver(drv, ["replay", p, o], env={"VERIF_C14_SKIPHANG": "0"})
+        p = os.path.join(c.scratch, "confirm%d.json" % k); json.dump(cs, open(p, "w"))
+        o = os.path.join(c.scratch, "confirm%d.ndjson" % k)
+        c.run_driver(drv, ["replay", p, o], env=dict({"VERIF_C14_SKIPHANG": "0"}, **xenv))
         evs = read_ndjson(o)
         if len(evs) != len(cs):
             raise Infra("confirmation run produced %d events for %d cases" % (len(evs), len(cs)))
         again = {i: tt for i, tt in c.validate("Trace_C14", evs, shards=1)}
         c.cov["traces_validated_against_impl"] -= len(evs)
-        for j, (idx, t) in enumerate(pan):
+        for j, (idx, t) in enumerate(pan_k):
             tt = again.get(j)
             e2 = json.loads(evs[j])
             confirmed[idx, tuple(t)] = bool(tt) and tt[2] == "PANIC" and tt[3] == t[3] and (e2["fn"], e2["kind"]) == sig_of(json.loads(events[idx]), t)
+            if k == 1 and confirmed[idx, tuple(t)]: needs_trace.add(idx)
     hang_hist = {}
     for idx, t in todo:
         if t[2] != "HANG": continue
@@ -320,6 +335,8 @@ def run(c):
             op, "text " if e["text"] else "", json.dumps(inp)[:160],
             "does not return within 2 s" if t[2] == "HANG" else "panics in %s: %s" % (fn, kd),
             "" if t[3] else " - not a recorded finding class", int(t[4]))
+        if idx in needs_trace:
+            what += " [with the library's logger at trace level: logger.GetLogger().SetLevel(logrus.TraceLevel); driver: VERIF_LOGTRACE=1 VERIF_VIEW=0]"
         return (op, cls, what, dict(helper=e["h"], text=e["text"], input=inp, observed=dict(kind=t[2], fn=fn, panic=kd),
                                     how="driver helpers14 replay [ {h,text,in} ] out.ndjson (hang: helpers14 probe out.ndjson <helper> <hex>); validate with spec/trace/Trace_C14"))
 
